@@ -241,11 +241,18 @@ fn EmitUncompressedMetaBlock(
     storage: &mut [u8],
 ) {
     RewindBitPosition(storage_ix_start, storage_ix, storage);
-    store_meta_block_header(len, true, storage_ix, storage);
-    *storage_ix = storage_ix.wrapping_add(7u32 as usize) & !7u32 as usize;
-    memcpy(storage, (*storage_ix >> 3), begin, 0, len);
-    *storage_ix = storage_ix.wrapping_add(len << 3);
-    storage[(*storage_ix >> 3)] = 0u8;
+    // a meta-block holds at most 1 << 24 bytes; with large windows a fragment can be longer
+    let mut offset: usize = 0;
+    while offset < len {
+        let chunk = min(len - offset, 1usize << 24);
+        store_meta_block_header(chunk, true, storage_ix, storage);
+        *storage_ix = storage_ix.wrapping_add(7u32 as usize) & !7u32 as usize;
+        memcpy(storage, (*storage_ix >> 3), begin, offset, chunk);
+        *storage_ix = storage_ix.wrapping_add(chunk << 3);
+        // the next write ORs into this byte, which may still hold abandoned compressed output
+        storage[(*storage_ix >> 3)] = 0u8;
+        offset += chunk;
+    }
 }
 
 fn EmitLongInsertLen(
